@@ -20,73 +20,78 @@ open Ural.Py Ural
 are `qvalOk`, and the record has one of the field combinations the parser produces -/
 def fieldsOk : Parsed → Bool
   | .user id h => h.isNone && qvalOk id
-  | .handle h => segOk h
+  | .handle h => lastOk h
   | .group id h =>
     (match id, h with
-     | some g, none => segOk g
-     | none, some g => segOk g
+     | some g, none => lastOk g
+     | none, some g => lastOk g
      | _, _ => false)
   | .post id pid ph gid gh =>
     (match pid, ph, gid, gh with
      | some p, none, none, none => qvalOk p && qvalOk id
-     | none, some x, none, none => segOk x && segOk id
-     | none, none, some g, none => segOk g && segOk id
-     | none, none, none, some g => segOk g && segOk id
+     | none, some x, none, none => segOk x && lastOk id
+     | none, none, some g, none => segOk g && lastOk id
+     | none, none, none, some g => segOk g && lastOk id
      | _, _, _, _ => false)
   | .video id pid =>
     (match pid with
      | none => qvalOk id
-     | some p => segOk p && segOk id)
+     | some p => segOk p && lastOk id)
   | .photo id gid pid ph aid =>
     (match pid, ph with
      | none, none => photoQueryOk id gid aid
      | some p, none =>
        (match gid, aid with
-        | none, some a => segOk p && segOk id && !a.isEmpty && a.all segChar && !blankLast a
+        | none, some a => segOk p && lastOk id && !a.isEmpty && a.all segChar && !blankLast a
         | _, _ => false)
      | none, some p =>
        (match gid, aid with
-        | none, some a => segOk p && segOk id && !a.isEmpty && a.all segChar && !blankLast a
+        | none, some a => segOk p && lastOk id && !a.isEmpty && a.all segChar && !blankLast a
         | _, _ => false)
      | some _, some _ => false)
 
-theorem segChar_of {c : Char} (h1 : cleanChar c = true) (h2 : c ≠ ';') : segChar c = true := by
-  unfold cleanChar at h1
-  unfold segChar
-  simp only [Bool.and_eq_true, decide_eq_true_eq, Bool.not_eq_true'] at h1 ⊢
-  exact ⟨⟨⟨⟨h1.1.1.1, h1.1.1.2⟩, h1.1.2⟩, h2⟩, h1.2⟩
+theorem segChar_eq_cleanChar : segChar = cleanChar := by funext c; rfl
 
-theorem all_segChar_of {s : Str} (h1 : s.all cleanChar = true) (h2 : s.contains ';' = false) :
-    s.all segChar = true := by
-  simp only [List.all_eq_true] at h1 ⊢
-  intro c hc
-  apply segChar_of (h1 c hc)
-  intro e
-  subst e
-  have : s.contains ';' = true := List.contains_iff_mem.mpr hc
-  rw [h2] at this
-  cases this
+theorem all_segChar_of {s : Str} (h1 : s.all cleanChar = true) : s.all segChar = true := by
+  rw [segChar_eq_cleanChar]; exact h1
 
-/-- not empty (`parsed_fields_nonempty`) + a clean segment (`parsed_path_fields_clean`) + no `;`,
-not a dot segment (`charsOk`) = a good segment -/
+/-- not empty (`parsed_fields_nonempty`) + a clean segment (`parsed_path_fields_clean`) + not a dot
+segment (`charsOk`) = a good segment -/
 theorem segOk_of {s : Str} (h1 : s.isEmpty = false) (h3 : segClean s = true) (h2 : segChars s = true) :
     segOk s = true := by
   unfold segChars at h2
   unfold segClean at h3
   unfold segOk
   simp only [Bool.and_eq_true, Bool.not_eq_true'] at h2 h3
-  simp [h1, all_segChar_of h3.1.1 h2.1, h2.2, h3.1.2, h3.2]
+  simp [h1, all_segChar_of h3.1.1, h2, h3.1.2, h3.2]
 
-theorem albumOk_of {a : Str} (h3 : albumClean a = true) (h2 : a.contains ';' = false) :
+theorem isDotSeg_of_lastSemiOk {s : Str} (h : lastSemiOk s = true) : isDotSeg s = false := by
+  cases hd : isDotSeg s with
+  | false => rfl
+  | true =>
+    unfold isDotSeg at hd
+    simp only [Bool.or_eq_true, decide_eq_true_eq] at hd
+    rcases hd with hd | hd <;> (rw [hd] at h; exact absurd h (by decide))
+
+/-- the same for the field that ends the canonical path -/
+theorem lastOk_of {s : Str} (h1 : s.isEmpty = false) (h3 : segClean s = true) (h2 : lastChars s = true) :
+    lastOk s = true := by
+  unfold lastChars at h2
+  unfold lastOk
+  have hd : segChars s = true := by unfold segChars; simp [isDotSeg_of_lastSemiOk h2]
+  simp [segOk_of h1 h3 hd, h2]
+
+theorem albumOk_of {a : Str} (h3 : albumClean a = true) :
     a.all segChar = true ∧ blankLast a = false := by
   unfold albumClean at h3
   simp only [Bool.and_eq_true, Bool.not_eq_true'] at h3
-  exact ⟨all_segChar_of h3.1 h2, h3.2⟩
+  exact ⟨all_segChar_of h3.1, h3.2⟩
 
 theorem qvalOk_of {s : Str} (h1 : s.isEmpty = false) (h2 : qvalChars s = true) : qvalOk s = true := by
   unfold qvalChars at h2
   unfold qvalOk
-  simp [h1, h2]
+  simp only [Bool.and_eq_true, Bool.not_eq_true'] at h2
+  simp [h1, h2.1, h2.2]
 
 theorem optQvalOk_of {o : Option Str} (h1 : optNe o = true) (h2 : optQvalChars o = true) : optQvalOk o = true := by
   cases o with
@@ -103,25 +108,25 @@ theorem fieldsOk_of (r : Parsed) (hne : noEmpty r = true) (hcl : pathFieldsClean
     simp only [fieldsOk, hc.1, qvalOk_of hne.1 hc.2, Bool.and_self]
   | handle h =>
     simp only [noEmpty, charsOk, pathFieldsClean, Bool.not_eq_true'] at hne hc hcl
-    exact segOk_of hne hcl hc
+    exact lastOk_of hne hcl hc
   | group id h =>
     cases id <;> cases h <;> simp only [noEmpty, charsOk, pathFieldsClean, optNe, Bool.and_eq_true, Bool.not_eq_true',
       Bool.false_eq_true] at hne hc hcl
-    · exact segOk_of hne.2 hcl hc
-    · exact segOk_of hne.1 hcl hc
+    · exact lastOk_of hne.2 hcl hc
+    · exact lastOk_of hne.1 hcl hc
   | post id pid ph gid gh =>
     cases pid <;> cases ph <;> cases gid <;> cases gh <;>
       simp only [noEmpty, charsOk, pathFieldsClean, optNe, Bool.and_eq_true, Bool.not_eq_true', Bool.false_eq_true,
         and_true] at hne hc hcl
-    · simp only [fieldsOk, segOk_of hne.2 hcl.1 hc.1, segOk_of hne.1 hcl.2 hc.2, Bool.and_self]
-    · simp only [fieldsOk, segOk_of hne.2 hcl.1 hc.1, segOk_of hne.1 hcl.2 hc.2, Bool.and_self]
-    · simp only [fieldsOk, segOk_of hne.2 hcl.1 hc.1, segOk_of hne.1 hcl.2 hc.2, Bool.and_self]
+    · simp only [fieldsOk, segOk_of hne.2 hcl.1 hc.1, lastOk_of hne.1 hcl.2 hc.2, Bool.and_self]
+    · simp only [fieldsOk, segOk_of hne.2 hcl.1 hc.1, lastOk_of hne.1 hcl.2 hc.2, Bool.and_self]
+    · simp only [fieldsOk, segOk_of hne.2 hcl.1 hc.1, lastOk_of hne.1 hcl.2 hc.2, Bool.and_self]
     · simp only [fieldsOk, qvalOk_of hne.2 hc.1, qvalOk_of hne.1 hc.2, Bool.and_self]
   | video id pid =>
     cases pid <;> simp only [noEmpty, charsOk, pathFieldsClean, optNe, Bool.and_eq_true, Bool.not_eq_true',
       and_true] at hne hc hcl
     · exact qvalOk_of hne hc
-    · simp only [fieldsOk, segOk_of hne.2 hcl.1 hc.1, segOk_of hne.1 hcl.2 hc.2, Bool.and_self]
+    · simp only [fieldsOk, segOk_of hne.2 hcl.1 hc.1, lastOk_of hne.1 hcl.2 hc.2, Bool.and_self]
   | photo id gid pid ph aid =>
     cases pid <;> cases ph
     · simp only [noEmpty, charsOk, Bool.and_eq_true, Bool.not_eq_true'] at hne hc
@@ -130,14 +135,14 @@ theorem fieldsOk_of (r : Parsed) (hne : noEmpty r = true) (hcl : pathFieldsClean
     · cases gid <;> cases aid <;>
         simp only [noEmpty, charsOk, pathFieldsClean, optNe, Bool.and_eq_true, Bool.not_eq_true', Bool.false_eq_true,
           and_true] at hne hc hcl
-      have ha := albumOk_of hcl.2 hc.2
-      simp only [fieldsOk, segOk_of hne.1.2 hcl.1.1 hc.1.1, segOk_of hne.1.1 hcl.1.2 hc.1.2, hne.2, ha.1, ha.2,
+      have ha := albumOk_of hcl.2
+      simp only [fieldsOk, segOk_of hne.1.2 hcl.1.1 hc.1, lastOk_of hne.1.1 hcl.1.2 hc.2, hne.2, ha.1, ha.2,
         Bool.not_false, Bool.and_self]
     · cases gid <;> cases aid <;>
         simp only [noEmpty, charsOk, pathFieldsClean, optNe, Bool.and_eq_true, Bool.not_eq_true', Bool.false_eq_true,
           and_true] at hne hc hcl
-      have ha := albumOk_of hcl.2 hc.2
-      simp only [fieldsOk, segOk_of hne.1.2 hcl.1.1 hc.1.1, segOk_of hne.1.1 hcl.1.2 hc.1.2, hne.2, ha.1, ha.2,
+      have ha := albumOk_of hcl.2
+      simp only [fieldsOk, segOk_of hne.1.2 hcl.1.1 hc.1, lastOk_of hne.1.1 hcl.1.2 hc.2, hne.2, ha.1, ha.2,
         Bool.not_false, Bool.and_self]
     · simp only [charsOk, Bool.false_eq_true] at hc
 
